@@ -67,8 +67,13 @@ class Sim:
         s.on_point = on_point
         self.sched = s
 
+        self.at_return = None
+
         def loop() -> None:
             self.runner.run()
+            # the state at the instant run() returns (task threads that were not joined may still be
+            # executing: in a real process they die with it)
+            self.at_return = {"records": {i: self.record(i) for i in self.all_ids()}, "queue": self.queue()}
 
         try:
             ex = s.run([("loop", loop), ("client", client), *(extra or [])])
